@@ -1511,7 +1511,7 @@ def nontrivial(line, reply):
 
 # --- deep theorems (Rounding3)
 PROOF_MODULES = PROOF_MODULES + ['Compute.Lemmas.MatmulRounding', 'Compute.Props.Rounding3']
-REQUIRED_THEOREMS = REQUIRED_THEOREMS + ['Cv.Rounding3.matmul_error', 'Cv.Rounding3.matmul_error_succ', 'Cv.Rounding3.matmulBlocked_error', 'Cv.Rounding3.xtx_error', 'Cv.Rounding3.matmul_error_infnorm', 'Cv.Rounding3.dotMM_error', 'Cv.Rounding3.f64_matmul_note']
+REQUIRED_THEOREMS = REQUIRED_THEOREMS + ['Cv.Rounding3.matmul_error', 'Cv.Rounding3.matmul_error_succ', 'Cv.Rounding3.matmulBlocked_error', 'Cv.Rounding3.xtx_error', 'Cv.Rounding3.matmul_error_infnorm', 'Cv.Rounding3.dotMM_error', 'Cv.Rounding3.stdmodel_matmul_note']
 NOT_PROVED = [x for x in NOT_PROVED if not any(k in str(x) for k in ('f64 rounding',))]
 NOT_PROVED = NOT_PROVED + ['f64 rounding of products with real entries is bounded by theorem in the standard model (Props/Rounding3: |C - op(A)op(B)| <= gamma_l |op(A)||op(B)| entrywise for all four flag pairs, the blocked variant, xtx and the Dot methods); the trusted link is that IEEE binary64 obeys fl(a op b) = (a op b)(1+d), |d| <= 2^-53']
 
@@ -1524,3 +1524,8 @@ srctie.wire_mut(globals(), 'C05')
 # proved equal to the hand model in Props/SrcTieC05Mut2.lean)
 from . import srctie
 srctie.wire_mut2(globals(), 'C05')
+
+# --- review repairs in the Rounding layer (renamed stdmodel_* theorems, underflow-aware variants, genuine FlModel instance; wired by the lead)
+PROOF_MODULES = PROOF_MODULES + [m for m in ['Compute.Lemmas.FlModelGrid', 'Compute.Props.RoundingGrid'] if m not in PROOF_MODULES]
+REQUIRED_THEOREMS = REQUIRED_THEOREMS + [t for t in ['Cv.Rounding3.dotVV_error', 'Cv.Rounding3.dotMV_error', 'Cv.Rounding3.dotVM_error', 'Cv.FlModel.grid_abs_sub_le', 'Cv.FlModel.grid_idem', 'Cv.FlModel.grid_mono', 'Cv.FlModel.grid_rnd_one', 'Cv.FlModel.grid_rnd_natCast', 'Cv.FlModel.grid_rnd_dyadic', 'Cv.FlModel.f64grid_u', 'Cv.FlModel.f64grid_mono'] if t not in REQUIRED_THEOREMS]
+NOT_PROVED = list(NOT_PROVED) + ['theorems named stdmodel_* hold in the idealised standard model (fl(x) = x(1+d) for every operation, library functions with relative error <= u_f for every argument) at u = 2^-53; they describe binary64 only where nothing overflows or underflows (for exp: arguments in [-708.39, 709.78]); outside that range computed values may be exactly 0 or inf', 'FlModel has a genuine instance, FlModel.grid p (radix 2, p digits, round to nearest, unbounded exponent; f64grid has u = 2^-53), proved to satisfy the standard model and to be idempotent and monotone, with integers <= 2^p and dyadics exact (Lemmas/FlModelGrid); headline rounding theorems are instantiated on it (Props/RoundingGrid); overflow and underflow remain outside the model']
